@@ -1,4 +1,5 @@
 import FxVerif.Proofs.C01
+import FxVerif.Proofs.C01Gen
 /-!
 # C02 — an event takes effect only with a 66 % power quorum of distinct registered oracles
 
@@ -264,5 +265,188 @@ example : let s := reach wp [ .gov [1, 2, 3, 4] true, .bond 1 101 201 (10 * powe
       .bond 2 102 202 (10 * powerReduction) true, .bond 3 103 203 (10 * powerReduction) true,
       .bond 4 104 204 (10 * powerReduction) true, .gov [2, 3, 4] true ]
     s.lastTotalPower = 40 ∧ onlinePower s.oracles = 30 := by decide
+
+/-! ## round 3 — states loaded from a genesis; histories with export / import restarts -/
+
+/-- state reached from the empty genesis by a history that may contain export / import restarts at arbitrary points -/
+abbrev greach (p : Params) (ops : List GOp) : State := grun (init p) ops
+
+/-- what the source says about `InitGenesis` (statements that write a modelled prefix, in source order): the recorded total
+is computed AFTER the loop that stores the oracle records, and the per-oracle last nonces are reconstructed AFTER the last
+observed nonce (their fallback) and the attestations are in the store -/
+theorem genesis_import_order :
+    genesisImport = [.setParams, .setLastObserved, .setProposal, .loadOracles true true true, .refreshTotal, .loadAtts,
+      .rebuildLastNonce] := by decide
+
+/-- what `ExportGenesis` writes out of the modelled prefixes: oracle records, attestations, last observed nonce, proposal
+list — not the parked claims, not the per-oracle last nonces -/
+theorem genesis_export_fields :
+    exportHasOracles = true ∧ exportHasAtts = true ∧ exportHasLastObserved = true ∧ exportHasProposal = true ∧
+    exportHasPending = false ∧ exportHasLastNonce = false := by decide
+
+/-- a chain started from ANY genesis (any oracle records, bonded or not, online or not, duplicates included) records exactly
+the combined power of its online oracles -/
+theorem genesis_total_eq_online (g : Genesis) :
+    (importGenesis g).lastTotalPower = onlinePower (importGenesis g).oracles := import_total g
+
+/-- `total_ge_online` for EVERY history with export / import restarts at arbitrary points -/
+theorem total_ge_online_g (p : Params) (ops : List GOp) :
+    onlinePower (greach p ops).oracles ≤ (greach p ops).lastTotalPower :=
+  totalOk_grun _ ops (by simp [TotalOk, init, onlinePower])
+
+/-- … and for every history that starts from an ARBITRARY genesis file -/
+theorem total_ge_online_from_genesis (g : Genesis) (ops : List GOp) :
+    onlinePower (grun (importGenesis g) ops).oracles ≤ (grun (importGenesis g) ops).lastTotalPower :=
+  totalOk_grun _ ops (by unfold TotalOk; rw [genesis_total_eq_online]; exact Nat.le_refl _)
+
+theorem required_ge_live_g (p : Params) (ops : List GOp) :
+    66 * onlinePower (greach p ops).oracles / 100 ≤ 66 * (greach p ops).lastTotalPower / 100 :=
+  Nat.div_le_div_right (Nat.mul_le_mul_left _ (total_ge_online_g p ops))
+
+/-- THE ORDER MATTERS: the same statements with `SetLastTotalPower` in front of the oracle loop record a total of 0 for
+every genesis, whatever oracles it contains (the store is still empty when the sum is taken) -/
+theorem genesis_refresh_before_load_records_zero (g : Genesis) (r b e : Bool) :
+    (importWith [.setParams, .setLastObserved, .setProposal, .refreshTotal, .loadOracles r b e, .loadAtts, .rebuildLastNonce] g).lastTotalPower = 0 := by
+  have hf := loadOracles_frame r b e g.oracles (refresh { params := g.params, lastObserved := g.lastObserved, proposal := g.proposal })
+  simp only [] at hf
+  simp only [importWith, List.foldl, applyGen]
+  rw [hf.2.2.2.2.2.2.1]
+  rfl
+
+/-- … so that `total_ge_online` fails for a genesis with one bonded online oracle -/
+theorem genesis_order_witness :
+    let g : Genesis := { oracles := [(1, ⟨101, 201, 10 * powerReduction, true, 0⟩)] }
+    let s := importWith [.setParams, .setLastObserved, .setProposal, .refreshTotal, .loadOracles true true true, .loadAtts, .rebuildLastNonce] g
+    s.lastTotalPower = 0 ∧ onlinePower s.oracles = 10 ∧ onlinePower (importGenesis g).oracles = 10 ∧ (importGenesis g).lastTotalPower = 10 := by
+  decide
+
+/-- FULL STRENGTH over histories with restarts: the attestation a claim newly marks observed has a duplicate-free vote list
+and its DISTINCT registered voters hold at least `66 * lastTotalPower / 100` — although the per-oracle last nonces, which
+keep an oracle from voting twice, are not exported but reconstructed from the votes by `InitGenesis` -/
+theorem observed_quorum_distinct_g (p : Params) (ops : List GOp)
+    (w i n h : Nat) (k : Kind) (e : Nat) (a' : Att)
+    (ha : a' ∈ (step (greach p ops) (.claim w i n h k e)).1.atts) (hob : a'.observed = true)
+    (hnew : ¬ ∃ b ∈ (greach p ops).atts, b.observed = true ∧ b.nonce = a'.nonce ∧ b.hash = a'.hash) :
+    a'.votes.Nodup ∧ 66 * (greach p ops).lastTotalPower / 100 ≤ distinctPower (greach p ops).oracles a'.votes := by
+  have hk : unbondDeletesLastNonce = false := by decide
+  have hW := winv_step hk _ (.claim w i n h k e) (winv_grun hk _ ops (winv_init p))
+  have hnd := hW.w2.1 a' ha
+  rcases observed_implies_quorum (greach p ops) w i n h k e a' ha hob with h1 | ⟨_, _, _, h4, _, _⟩
+  · exact absurd h1 hnew
+  · exact ⟨hnd, by rw [distinctPower, dedup_of_nodup hnd]; exact h4⟩
+
+theorem observed_implies_live_quorum_g (p : Params) (ops : List GOp) (w i n h : Nat) (k : Kind) (e : Nat) (a' : Att)
+    (ha : a' ∈ (step (greach p ops) (.claim w i n h k e)).1.atts) (hob : a'.observed = true)
+    (hnew : ¬ ∃ b ∈ (greach p ops).atts, b.observed = true ∧ b.nonce = a'.nonce ∧ b.hash = a'.hash) :
+    66 * onlinePower (greach p ops).oracles / 100 ≤ distinctPower (greach p ops).oracles a'.votes :=
+  Nat.le_trans (required_ge_live_g p ops) (observed_quorum_distinct_g p ops w i n h k e a' ha hob hnew).2
+
+/-- the claim hash identifies the event: all six `ClaimHash` implementations cover the event nonce AND the external block
+height, so votes that report another height for an event nonce go to another attestation (the harness votes such claims
+and checks on the real keeper that the voters tallied together all claimed the event that took effect) -/
+theorem claim_identity_covers_height : claimHashCoversHeight = true ∧ claimHashCoversNonce = true := by decide
+
+/-! ### the recorded total after a governance oracle update (`UpdateProposalOracles` does not refresh it) -/
+
+/-- a governance oracle update never changes the recorded total — whatever it removes -/
+theorem gov_keeps_recorded_total (s : State) (l : List Nat) (d : Bool) :
+    (step s (.gov l d)).1.lastTotalPower = s.lastTotalPower := by
+  have hr : refreshOnGovUpdate = false := by decide
+  simp only [step]; unfold govStep
+  repeat' split
+  all_goals simp_all
+
+/-- what `UpdateProposalOracles` does to one oracle record: removed oracles go offline -/
+def offIf (rm : Nat × Oracle → Bool) (p : Nat × Oracle) : Nat × Oracle := if rm p then (p.1, { p.2 with online := false }) else p
+
+theorem onlinePower_split (m : Map Oracle) (rm : Nat × Oracle → Bool) :
+    onlinePower (m.map (offIf rm)) + onlinePower (m.filter rm) = onlinePower m := by
+  induction m with
+  | nil => rfl
+  | cons q t ih =>
+    obtain ⟨k, o⟩ := q
+    by_cases h : rm (k, o) = true
+    · have e1 : offIf rm (k, o) = (k, { o with online := false }) := by simp [offIf, h]
+      rw [List.map_cons, List.filter_cons_of_pos h, e1, onlinePower_cons, onlinePower_cons, onlinePower_cons]
+      simp only [contrib, Bool.false_eq_true, if_false]
+      omega
+    · have e1 : offIf rm (k, o) = (k, o) := by simp [offIf, h]
+      rw [List.map_cons, List.filter_cons_of_neg h, e1, onlinePower_cons, onlinePower_cons]
+      omega
+
+theorem gov_ok (s : State) (l : List Nat) (d : Bool) (hok : (govStep s l d).2 = .ok) :
+    (govStep s l d).1.oracles = s.oracles.map (offIf (govRemoved s l)) ∧
+    ¬ (0 < govDeleted s l ∧ govChangeThreshold * onlinePower s.oracles / 100 ≤ govDeleted s l) := by
+  have hr : refreshOnGovUpdate = false := by decide
+  unfold govStep at hok ⊢
+  split at hok
+  · simp at hok
+  · split at hok
+    · simp at hok
+    · split at hok
+      · simp at hok
+      · rename_i h1 h2 h3
+        rw [if_neg h1, if_neg h2, if_neg h3]
+        simp only [hr, Bool.false_eq_true, if_false]
+        refine ⟨rfl, ?_⟩
+        intro hc
+        apply h2
+        simp [hc.1, hc.2]
+
+/-- an accepted governance update takes exactly the online power of the removed oracles off the live power -/
+theorem gov_removes_exactly (s : State) (l : List Nat) (d : Bool) (hok : (step s (.gov l d)).2 = .ok) :
+    onlinePower (step s (.gov l d)).1.oracles + govDeleted s l = onlinePower s.oracles := by
+  simp only [step] at hok ⊢
+  rw [(gov_ok s l d hok).1]
+  exact onlinePower_split s.oracles (govRemoved s l)
+
+/-- LIVENESS after ONE update from a fresh total: a governance update is refused when it would take 30 % or more of the
+online power away, so after one accepted update of a state whose recorded total is fresh the remaining online oracles
+still hold more than the bar of the (now stale) recorded total: the quorum stays reachable -/
+theorem one_gov_update_keeps_quorum_reachable (s : State) (l : List Nat) (d : Bool)
+    (hfresh : s.lastTotalPower = onlinePower s.oracles) (hok : (step s (.gov l d)).2 = .ok) :
+    66 * (step s (.gov l d)).1.lastTotalPower / 100 ≤ onlinePower (step s (.gov l d)).1.oracles := by
+  have hex := gov_removes_exactly s l d hok
+  rw [gov_keeps_recorded_total, hfresh]
+  have hg : govChangeThreshold = 30 := by decide
+  have hcap := (gov_ok s l d (by simpa only [step] using hok)).2
+  rw [hg] at hcap
+  omega
+
+/-- … but NOT after two updates in a row with nothing refreshing the total in between (each below 30 % of the then online
+power): five oracles of power 20, two removed — the bar stays 66 (of the recorded 100) while the three online oracles hold
+60: no event can be observed until `SetLastTotalPower` runs (an end block with an oracle-set request, a bond, an
+add-delegate).  The stale total only ever makes the bar HIGHER (`total_ge_online`): safety holds, liveness waits. -/
+theorem two_gov_updates_can_block_quorum :
+    ∃ p ops, onlinePower (reach p ops).oracles < 66 * (reach p ops).lastTotalPower / 100 ∧
+      (reach p (ops ++ [.endBlock [] true])).lastTotalPower = onlinePower (reach p (ops ++ [.endBlock [] true])).oracles := by
+  refine ⟨wp, [ .gov [1, 2, 3, 4, 5] true,
+      .bond 1 101 201 (20 * powerReduction) true, .bond 2 102 202 (20 * powerReduction) true, .bond 3 103 203 (20 * powerReduction) true,
+      .bond 4 104 204 (20 * powerReduction) true, .bond 5 105 205 (20 * powerReduction) true,
+      .gov [1, 2, 3, 4] true, .gov [1, 2, 3] true ], ?_, ?_⟩ <;> decide
+
+/-! ### non-vacuity of the round-3 statements -/
+
+/-- a history with a restart: four oracles (35, 33, 20, 13), a vote on nonce 1, a governance removal (total stale),
+export / import, the same oracle tries again (refused), a second vote reaches the refreshed bar -/
+def restartDemo : List GOp :=
+  let u : Nat := powerReduction
+  [ .op (.gov [1, 2, 3, 4] true),
+    .op (.bond 1 101 201 (35 * u) true), .op (.bond 2 102 202 (33 * u + (u - 1)) true), .op (.bond 3 103 203 (20 * u) true),
+    .op (.bond 4 104 204 (13 * u) true),
+    .op (.claim 102 102 1 0 .pending 1001),
+    .op (.gov [1, 2, 3] true),          -- removal of oracle 4 (13 of 101 < 30 %): total stays 101 (stale), online 88
+    .genesis,                           -- import: total refreshed to 88, last nonces rebuilt from the votes
+    .op (.claim 102 102 1 0 .pending 1001),   -- refused: oracle 2 has voted for nonce 1
+    .op (.claim 101 101 1 0 .pending 1001) ]  -- 33 + 35 = 68 ≥ 58 = 66·88/100
+
+example : (greach wp (restartDemo.take 7)).lastTotalPower = 101 ∧ onlinePower (greach wp (restartDemo.take 7)).oracles = 88 := by decide
+example : (greach wp (restartDemo.take 8)).lastTotalPower = 88 := by decide
+example : (greach wp (restartDemo.take 8)).lastNonce = [(2, 1)] := by decide
+example : (gstep (greach wp (restartDemo.take 8)) (.op (.claim 102 102 1 0 .pending 1001))).2 = .nonContiguous := by decide
+example : (greach wp restartDemo).lastObserved = 1 := by decide
+/-- the hypotheses of `one_gov_update_keeps_quorum_reachable` are satisfiable -/
+example : let s := greach wp (restartDemo.take 6)
+    s.lastTotalPower = onlinePower s.oracles ∧ (step s (.gov [1, 2, 3] true)).2 = .ok := by decide
 
 end FxVerif.Props.C02
